@@ -27,7 +27,10 @@ CLAIM = dict(
           "with promote_cxx / bool / the operand type; every ARGUMENT FORM selecting the result type — fn(a,b), casting::auto_t, casting::same_kind_t, "
           "casting::equiv_t (add, subtract, multiply), outer_<fn>(a,b,dtype), reduce_/accumulate_<fn>(a,axis,dtype) — on int8/uint8/int16/uint16/int32/"
           "int64/float/double with values whose exact result leaves the narrow type's range: values AND the element type of the view and of the "
-          "evaluated array are compared with the table (C07_result_type_forms: default/auto = C++ promotion, same_kind/equiv = operand type, dtype "
+          "evaluated array are compared with the table; array op scalar over element-type PAIRS (int array x fractional float scalar, narrow int x wide "
+          "int scalar, float array x double scalar; scalar on either side; add subtract multiply divide power maximum minimum less where) with the "
+          "element type tag — FINDING on the tree before fixes/C07_scalar_operand_value.diff: maximum / minimum / power / where convert the scalar to the "
+          "array's element type first (maximum(int8 [1], 1000) = -24; power(int [4], 0.5) = 1); values AND types are compared with the table (C07_result_type_forms: default/auto = C++ promotion, same_kind/equiv = operand type, dtype "
           "= requested); operands with compile-time size but run-time shape (std::array buffer) evaluated under one- and two-sided broadcasting. NOT COVERED: view::clip and the n-ary view::ufunc with three operands do not "
           "instantiate in the pinned tree for any operand kind tried (static_assert; the suite's clip test is commented out of its "
           "CMakeLists) — compile-rejected, reported in notes/C07.md; view::divide, power and the other ufuncs have no result-type "
@@ -39,7 +42,7 @@ RULE = ("all ordered pairs of shapes dim 0..3 extents 1..3 (dim 0 = scalar), com
         "check; 200 sampled rank-4 pairs; 320 deferred-evaluation cases (8 composed forms x run-time / fixed shapes); every numeric type pair x op for the element-type table. non-trivial = an operand of dim >= 2 with an extent > 1; "
         "distinct = distinct case lines")
 THEOREM_STATUS = {"proved": ["C07_unary", "C07_binary_shape", "C07_binary_elem", "C07_ternary", "C07_outer", "C07_dtype_table", "C07_result_type_forms"],
-                  "partial": [], "refuted": []}
+                  "partial": [], "refuted": ["C07_scalar_operand_as_array_type_refuted"]}
 ASSUMPTIONS = ["extents are positive", "LP64 data model for the element-type table (int 32 bit, long 64 bit)",
                "identity of the scalar functions (libm) is compared in-process, not modelled"]
 
@@ -162,6 +165,25 @@ def gen_cases(rng, tier):
             for t in ("i8", "u8", "i16", "u16", "i32", "i64", "f32", "f64"):
                 for d in ("none", "i8", "i16", "i32", "i64", "f32", "f64"):
                     out.append(("dtype", "redt S:%s S:%s S:%s S:%s" % (variant, fn, t, d), "c07d"))
+    # array op scalar over element-type PAIRS, scalar on either side (a floating scalar is written n and means n/4)
+    APAIRS = [("i32", "f64"), ("i8", "i32"), ("u8", "i64"), ("i16", "f32"), ("f32", "f64"), ("i64", "f64")]
+    for rep in range(2 if tier == "quick" else 10):
+        for at, st in APAIRS:
+            for fn in ("add", "subtract", "multiply", "divide", "power", "maximum", "minimum", "less", "where"):
+                for pos in ("l", "r"):
+                    cnt = rng.choice([3, 4, 6]); fl = st.startswith("f")
+                    lo, hi = {"i8": (-100, 100), "u8": (0, 255), "i16": (-300, 300)}.get(at, (-500, 500))
+                    if fn == "power":
+                        # base > 0; the array is the exponent when the scalar is on the left
+                        data = [rng.randint(0, 4) if pos == "l" else rng.randint(1, 9) for _ in range(cnt)]
+                        n = rng.choice([2, 5, 6, 10, 13]) if fl else rng.randint(1, 3)
+                    else:
+                        data = [rng.randint(lo, hi) for _ in range(cnt)]
+                        if fn == "divide": data = [d if d != 0 else 7 for d in data]
+                        if fn == "where": data = [0 if rng.random() < 0.4 else d for d in data]
+                        n = rng.choice([-13, -6, 1, 3, 10, 17, 50, 401]) if fl else (rng.choice([1000, -1000, 300, 70000]) if fn != "multiply" else rng.choice([1000, -300]))
+                        if at == "u8" and n < 0 and fn in ("maximum", "minimum", "less", "where", "divide"): n = -n   # keep clear of signed/unsigned surprises of i64 vs u8? (u8 promotes to i64: fine) but stay simple
+                    out.append(("array-scalar-types", "ascal S:%s S:%s S:%s S:%s A:%d:%s I:%d" % (fn, at, st, pos, cnt, ",".join(map(str, data)), n), "c07d"))
     # operands with a compile-time SIZE (std::array buffer) but a run-time shape, evaluated: one- and TWO-sided broadcasting
     K3 = [(3,), (3, 1), (1, 3), (1, 1, 3), (3, 1, 1)]; K4 = [(4,), (4, 1), (1, 4), (2, 2), (2, 1, 2), (1, 4, 1)]
     for i in range(60 if tier == "quick" else 400):
@@ -191,4 +213,11 @@ def distribution(streams):
 
 
 def classify(line, impl, spec, model):
+    t = line.split(" ")
+    if t[0] == "ascal" and t[1][2:] in ("power", "maximum", "minimum", "where") and t[2] != t[3]:
+        # finding (fixes/C07_scalar_operand_value.diff): the scalar operand reaches the op as a 0-dim view and ops written with ?: /
+        # common_type convert it to the array's element type first: same shape, same element type tag, other values
+        a, b = impl.split(";"), spec.split(";")
+        if len(a) == 3 and len(b) == 3 and a[0].strip() == b[0].strip() and a[2].strip() == b[2].strip() and a[1].strip() != b[1].strip():
+            return "scalar-operand-converted-to-array-type"
     return None
